@@ -138,6 +138,7 @@ func init() {
 		Assumptions: []string{"cursor variables are non-negative (initialised to 0 and only incremented)", "strconv.ParseFloat (tdewolff/parse) returns 0 <= n <= len(b)", "third-party dependencies are trusted not to panic"},
 		Run: func(c *core.Ctx, r *core.Report) {
 			E11MagnitudeTestOnAbs(c, r)
+			E4SliceLengthGuarded(c, r)
 			E8Units(c, r)
 			E11RelativeBeforeUse(c, r)
 			E11ImplicitCommand(c, r)
